@@ -419,7 +419,13 @@ impl Gen {
         if depth > 0 && !self.low() {
             // generic productions usable at any computation type
             // inside monadic blocks binds are what the translation rewrites: generate them more often
-            let pick = if self.pure_mode && self.rng.chance(2, 5) { 0 } else { self.rng.below(16) };
+            let pick = if self.pure_mode && self.rng.chance(2, 5) {
+                0
+            } else if self.pure_mode && self.rng.chance(1, 5) {
+                13
+            } else {
+                self.rng.below(16)
+            };
             match pick {
                 | 0 | 1 => {
                     // do x <- M; N
@@ -493,6 +499,53 @@ impl Gen {
                     if let Some(c) = self.gen_loop(ctx, ty, depth) {
                         return c;
                     }
+                }
+                | 14 => {
+                    // do (x1, .., xn) <- M; ret xi   — a destructuring bind whose tail returns one component
+                    if let CTy::Ret(a) = ty {
+                        self.feat("do-destructure-return");
+                        let a = (**a).clone();
+                        let n = 2 + self.rng.below(3);
+                        let at = self.rng.below(n);
+                        let items: Vec<VTy> = (0..n).map(|i| if i == at { a.clone() } else { self.gen_vty(0, false) }).collect();
+                        // a trailing product component would be flattened into the tuple: keep the shape by not ending with one
+                        if !matches!(items.last(), Some(VTy::Prod(_))) {
+                            let whole = prod(items.clone());
+                            let bindee = self.gen_comp(ctx, &ret(whole.clone()), depth - 1);
+                            let vars: Vec<VarId> = items.iter().map(|_| self.fresh_var()).collect();
+                            let tuple = Pat::Tuple(vars.iter().map(|v| Pat::Var(*v)).collect());
+                            let pat = if self.rng.chance(1, 4) {
+                                self.feat("alias-pattern");
+                                Pat::Alias(vec![Pat::Var(self.fresh_var()), tuple])
+                            } else {
+                                tuple
+                            };
+                            return Comp::Do { pat, bindee: Box::new(bindee), bindee_ty: whole, tail: Box::new(Comp::Ret(Val::Var(vars[at]))) };
+                        }
+                    }
+                }
+                | 13 => {
+                    // let (p1, .., pj, rest) = (v1, .., vn) in let (q..) = rest in …
+                    // a tuple literal taken apart by a pattern with fewer positions: the last one binds the remaining product
+                    self.feat("tuple-regroup-let");
+                    let n = 3 + self.rng.below(3);
+                    let items: Vec<VTy> = (0..n).map(|_| if self.rng.chance(1, 2) { VTy::Int } else { self.gen_vty(0, false) }).collect();
+                    let whole = prod(items.clone());
+                    let vals: Vec<Val> = items.iter().map(|t| self.gen_val(ctx, t, 1)).collect();
+                    let j = 1 + self.rng.below(n - 2);
+                    let mut binds = Vec::new();
+                    let mut pats: Vec<Pat> = (0..j).map(|i| self.gen_pat(&items[i], 0, &mut binds)).collect();
+                    let rest_ty = prod(items[j..].to_vec());
+                    let rest = self.fresh_var();
+                    pats.push(Pat::Var(rest));
+                    let mut inner_binds = Vec::new();
+                    let inner_pats: Vec<Pat> = items[j..].iter().map(|t| self.gen_pat(t, 0, &mut inner_binds)).collect();
+                    let mut all = binds.clone();
+                    all.push((rest, rest_ty.clone()));
+                    all.extend(inner_binds.iter().cloned());
+                    let tail = self.gen_comp(&ctx.with_all(&all), ty, depth - 1);
+                    let inner = Comp::Let { pat: Pat::Tuple(inner_pats), val: Val::Var(rest), ty: rest_ty, tail: Box::new(tail) };
+                    return Comp::Let { pat: Pat::Tuple(pats), val: Val::Tuple(vals), ty: whole, tail: Box::new(inner) };
                 }
                 | _ => {}
             }
@@ -709,6 +762,33 @@ impl Gen {
     }
 
     fn gen_dtor_use(&mut self, ctx: &Ctx, ty: &CTy, depth: usize) -> Option<Comp> {
+        // a comatch eliminated on the spot: `(comatch … : K) .d args`
+        if self.rng.chance(1, 3) {
+            let mut cands: Vec<(usize, usize, Vec<VTy>)> = Vec::new();
+            for (decl, d) in self.decls.codata.iter().enumerate() {
+                if d.recursive {
+                    continue;
+                }
+                for (i, (_, dt)) in d.dtors.iter().enumerate() {
+                    let (args, result) = dt.uncurry();
+                    if result == ty {
+                        cands.push((decl, i, args.into_iter().cloned().collect()));
+                    }
+                }
+            }
+            if !cands.is_empty() {
+                self.feat("comatch-redex");
+                self.feat("destructor");
+                let (decl, dtor, args) = cands[self.rng.below(cands.len())].clone();
+                let object = self.gen_comp(ctx, &CTy::Codata(decl), depth - 1);
+                let mut head = Comp::Dtor { head: Box::new(object), decl, dtor };
+                for a in &args {
+                    let arg = self.gen_val(ctx, a, depth - 1);
+                    head = Comp::App { fun: Box::new(head), arg, arg_ty: a.clone() };
+                }
+                return Some(head);
+            }
+        }
         // a codata-typed thunk in scope with a destructor (after arguments) of the goal type
         let mut cands: Vec<(VarId, usize, usize, Vec<VTy>)> = Vec::new();
         for (v, t) in &ctx.vars {
